@@ -26,14 +26,17 @@ op codes (a = argument list)           observation
  18 probe      slot item               [1]           (a CLONE of the filter inserts the item and is asked for it:
                                        the crate hashes; the model answers by the no-false-negative theorem, so
                                        filters with thousands of hash functions cost the model nothing)
+ 19 rt_check   slot                    [copy == original, image length]   (the crate serializes, deserializes and
+                                       compares; the model answers by the round-trip theorem and the size formula
+                                       without building the byte list: usable on filters of 2^20 bits)
  17 parse      slot bytes...           [1] / ERR / ALLOC (-997)   (slot := None; slot := deserialize(bytes) with the
                                        bytes allocated inside deserialize() counted: a peak above 64*len + 1 MiB
                                        is reported as ALLOC and the value dropped)
 An operation addressed to a slot that holds no filter is observed as EMPTY (-996) on both sides.
 
 gen(rng, tier, n, focus): focus None = C09 histories; "codec" = C11 twins; "malformed" = C14 mutated images;
-"foreign" = C13 images built from the generator's own picture; "extremes" = C17 valid histories at the
-configuration extremes; "size" = C18 growing streams.
+"foreign" = C13 images built from the generator's own picture; "extremes" / "extremes-huge" = C17 valid histories
+at the configuration extremes (up to 2^16 / 2^20 bits); "size" = C18 growing streams.
 """
 import math, os, struct, sys
 sys.path.insert(0, os.path.join(os.path.dirname(os.path.abspath(__file__)), ".."))
@@ -48,7 +51,7 @@ GEN_MODULES = [("GenBloom", ["bloom/sketch.rs", "bloom/builder.rs"],
                 ["SERIAL_VERSION", "EMPTY_FLAG_MASK", "DIRTY_BITS_VALUE", "MIN_NUM_BITS", "MIN_NUM_HASHES", "MAX_NUM_HASHES"])]
 OPNAMES = {0: "new", 1: "insert", 2: "contains", 3: "contains_and_insert", 4: "union", 5: "intersect", 6: "invert",
            7: "reset", 8: "bits_used", 9: "serialize", 10: "roundtrip", 11: "deserialize", 12: "info", 13: "is_compatible",
-           14: "new_with_accuracy", 15: "fpp_probe", 16: "fork", 17: "parse", 18: "probe_clone"}
+           14: "new_with_accuracy", 15: "fpp_probe", 16: "fork", 17: "parse", 18: "probe_clone", 19: "roundtrip_check"}
 NSLOTS = 6
 M64 = (1 << 64) - 1
 
@@ -651,25 +654,28 @@ def gen_foreign_case(rng, cid, tier):
 
 
 # ---------------------------------------------------------------------------------------------- C17: extremes
-def gen_extremes_case(rng, cid, tier):
+def gen_extremes_case(rng, cid, tier, huge_only=False):
     """C17 focus: VALID call sequences only (arguments in the documented ranges, compatible operands), at the
     configuration extremes: 1 bit, word boundaries, up to 2^20 bits; 1 and 32767 hash functions; seeds 0 and 2^64-1;
     extreme items; long random histories over every operation incl. the codec"""
     r = rng.random()
-    if r < 0.3:
+    if huge_only:
+        num_bits = rng.choice([1 << 20, (1 << 20) - 63, (1 << 20) - 64, (1 << 20) + 1])
+    elif r < 0.3:
         num_bits = rng.choice([1, 1, 2, 63, 64, 65, 127, 128, 129])
-    elif r < 0.8:
+    elif r < 0.85:
         num_bits = rng.choice([1, 64, 100, 1000, 4096, rng.randint(1, 5000)])
-    elif r < 0.93:
-        num_bits = rng.choice([65535, 65536, 65537])
     else:
-        num_bits = rng.choice([1 << 20, (1 << 20) - 63, (1 << 20) - 64])
-    huge = num_bits > 100000
-    nh = rng.choice([1, 1, 2, 3, 7, 16, 255, 32767]) if not huge else rng.choice([1, 2, 5])
+        num_bits = rng.choice([65535, 65536, 65537])
+    huge = num_bits > 100000        # 2^20 bits: the list-based model cannot build the 128 KiB image (ops 9, 10, 16) -> op 19
+    nh = rng.choice([1, 1, 2, 3, 7, 16, 255, 2047, 32767]) if not huge else rng.choice([1, 2, 5])
     slow = nh > 300
+    # the extracted model needs ~0.5 ms per hash position (15 s for one call with 32767 hash functions): such filters are
+    # hashed by the crate through the clone probe (op 18) and by the model only in the thorough tier, once
+    direct = {2047: 2, 32767: 1 if tier == "thorough" else 0}.get(nh, 10**9)
     seed = rng.choice([0, M64, 9001, 1, rng.getrandbits(64)])
     nslots = rng.choice([1, 2, 3])
-    budget = 4 if slow else (12 if huge else (rng.choice([20, 80, 250]) if tier == "quick" else rng.choice([80, 400, 1500])))
+    budget = 12 if slow else (12 if huge else (rng.choice([20, 80, 250]) if tier == "quick" else rng.choice([80, 400, 1500])))
     dom = [0, 1, -1, 2**63 - 1, -2**63] + [rng.getrandbits(64) - 2**63 for _ in range(rng.choice([1, 5, 40]))]
     ops = []
     nw = (num_bits + 63) // 64
@@ -685,8 +691,11 @@ def gen_extremes_case(rng, cid, tier):
     for _ in range(budget):
         s = rng.randrange(nslots)
         r = rng.random()
-        if r < 0.45 and not (slow and hashops >= 4):
-            ops.append((rng.choice([1, 1, 2, 3]), [s] + ia(rng.choice(dom)))); hashops += 1
+        if r < 0.45:
+            if hashops < direct:
+                ops.append((rng.choice([1, 1, 2, 3]), [s] + ia(rng.choice(dom)))); hashops += 1
+            else:
+                ops.append((18, [s, rng.choice(dom)]))
         elif r < 0.55 and nslots > 1:
             o = rng.randrange(nslots)
             ops.append((rng.choice([4, 4, 5]), [s, o]))                    # every slot is compatible (also with itself)
@@ -696,21 +705,24 @@ def gen_extremes_case(rng, cid, tier):
             ops.append((7, [s]))
         elif r < 0.74:
             ops.append((8, [s]))
-        elif r < 0.80 and not huge:
-            ops.append((9, [s]))
+        elif r < 0.80:
+            ops.append((19 if huge else 9, [s]))
         elif r < 0.86:
-            ops.append((10, [s]))
+            ops.append((19 if huge else rng.choice([10, 19]), [s]))
         elif r < 0.90:
             ops.append((12, [s]))
         elif r < 0.94:
             ops.append((13, [s, rng.randrange(nslots)]))
-        elif nslots > 1:
+        elif nslots > 1 and not huge:
             o = rng.randrange(nslots)
             if o != s:
                 ops.append((16, [s, o]))
+        else:
+            ops.append((18, [s, rng.choice(dom)]))
     for s in range(nslots):
-        ops += [(8, [s]), (12, [s]), (6, [s]), (8, [s]), (10, [s]), (6, [s]), (8, [s])]
-        if not huge or s == 0:
+        rt = 19 if huge else 10
+        ops += [(8, [s]), (12, [s]), (18, [s, rng.choice(dom)]), (6, [s]), (8, [s]), (rt, [s]), (6, [s]), (8, [s]), (19, [s])]
+        if not huge:
             ops.append((9, [s]))
     return Case(cid, [NSLOTS], ops, tag="bloom-extremes")
 
@@ -722,14 +734,14 @@ def gen_extremes_builder_case(rng, cid, tier):
         n = rng.choice([1, 10, 1000, 100000])
         p = rng.choice([0.5, 0.01, 1e-6, 0.999])
         sz = sizing(n, p)
-        if sz and sz[0] <= 1 << 22:
+        if sz and sz[0] <= 1 << 17:
             break
     seed = rng.choice([0, M64, 9001])
     ops.append((14, [2, n, f64bits(p), seed, sz[0], sz[1]]))
     for x in (0, -1, 2**63 - 1):
         h0, h1 = hashes(x, seed)
         ops.append((3, [2, x, h0, h1])); ops.append((2, [2, x, h0, h1]))
-    ops += [(8, [2]), (6, [2]), (8, [2]), (10, [2]), (7, [2]), (8, [2])]
+    ops += [(8, [2]), (6, [2]), (8, [2]), (19, [2]), (7, [2]), (8, [2]), (19, [2])]
     return Case(cid, [NSLOTS], ops, tag="bloom-extremes-builder")
 
 
@@ -768,6 +780,8 @@ def gen(rng, tier, n=None, focus=None):
         return [gen_foreign_case(rng, i, tier) for i in range(n)]
     if focus == "extremes":
         return [gen_extremes_builder_case(rng, i, tier) if i % 12 == 11 else gen_extremes_case(rng, i, tier) for i in range(n)]
+    if focus == "extremes-huge":      # 2^20-bit filters: beyond the list-based Spec oracle, judged by the model and the no-panic oracle
+        return [gen_extremes_case(rng, i, tier, huge_only=True) for i in range(n)]
     if focus == "size":
         return [gen_size_case(rng, i, tier) for i in range(n)]
     cases = []
